@@ -95,6 +95,7 @@ structure ICall where
   done : Bool
   fwd : Option Nat := none
   group : Option Nat := none
+  tmo : Option Nat := none       -- the timeout the caller gave (travels with the port: `get_timeout`)
 
 structure OS where
   now : Nat := 0
@@ -213,7 +214,7 @@ def gracefulHolds (o : OS) (a : Nat) : OS :=
 /-- `handled p [sent-ok|sent-err]` -/
 def applyHandled (o : OS) (a : Nat) (pre : String) (act : Act) : OS :=
   match words pre with
-  | "handled" :: p :: rest =>
+  | "handled" :: p :: _ :: rest =>
     match p.toNat? with
     | some p =>
       match act with
@@ -224,17 +225,29 @@ def applyHandled (o : OS) (a : Nat) (pre : String) (act : Act) : OS :=
     | none => o
   | _ => o
 
-def modelHandlePre (before : S) (a : Nat) (act : Act) : String :=
+def showT (t : Option Nat) : String := match t with | some t => toString t | none => "-"
+
+/-- `get_timeout` of the dequeued port must be the timeout its caller gave -/
+def timeoutClause (o : OS) (ipre : String) : List String :=
+  match words ipre with
+  | "handled" :: p :: t :: _ =>
+    match p.toNat? with
+    | some p => if t == s!"t={showT ((o.calls[p]?).bind (·.tmo))}" then [] else ["c09.port-timeout-mismatch"]
+    | none => []
+  | _ => []
+
+def modelHandlePre (o : OS) (before : S) (a : Nat) (act : Act) : String :=
   match before.actors[a]? with
   | some x =>
     if !x.alive then "idle" else
     match x.mailbox with
     | .call p :: _ =>
+      let t := showT ((o.calls[p]?).bind (·.tmo))
       match act with
       | .reply _ =>
         let open_ := match before.calls[p]? with | some c => c.res.isNone | none => false
-        s!"handled {p} {if open_ then "sent-ok" else "sent-err"}"
-      | _ => s!"handled {p}"
+        s!"handled {p} t={t} {if open_ then "sent-ok" else "sent-err"}"
+      | _ => s!"handled {p} t={t}"
     | .fwd v :: _ => s!"fwd {v}"
     | [] => "idle"
   | none => "idle"
@@ -307,14 +320,14 @@ def step (ds : DS) (op impl : String) : DS × StepOut :=
     match a.toNat?, parseT? t with
     | some a, some t =>
       let sendErr := ievs.any (fun e => e.endsWith "=sendErr")
-      let o' := { ds.o with calls := ds.o.calls ++ [⟨a, t.map (· + ds.o.now), if sendErr then .gone else .mailbox a, false, none, none⟩] }
+      let o' := { ds.o with calls := ds.o.calls ++ [⟨a, t.map (· + ds.o.now), if sendErr then .gone else .mailbox a, false, none, none, t⟩] }
       run1 (.call a t) "ok" o' false
     | _, _ => (ds, { model := "bad-op" })
   | ["fcall", a, f, t] =>
     match a.toNat?, f.toNat?, parseT? t with
     | some a, some f, some t =>
       let sendErr := ievs.any (fun e => e.endsWith "=sendErr")
-      let o' := { ds.o with calls := ds.o.calls ++ [⟨a, t.map (· + ds.o.now), if sendErr then .gone else .mailbox a, false, some f, none⟩] }
+      let o' := { ds.o with calls := ds.o.calls ++ [⟨a, t.map (· + ds.o.now), if sendErr then .gone else .mailbox a, false, some f, none, t⟩] }
       run1 (.fcall a f t) "ok" o' true
     | _, _, _ => (ds, { model := "bad-op" })
   | ["mcall", as, t] =>
@@ -324,7 +337,7 @@ def step (ds : DS) (op impl : String) : DS × StepOut :=
       let base := ds.o.calls.length
       -- on a failed send the real multi_call created ports only up to the failing actor; the
       -- oracle tracks the successfully sent prefix as abandoned (no completion expected)
-      let news : List ICall := as.map (fun a => ⟨a, t.map (· + ds.o.now), if failed then .detached else .mailbox a, failed, none, some ds.o.groups.length⟩)
+      let news : List ICall := as.map (fun a => ⟨a, t.map (· + ds.o.now), if failed then .detached else .mailbox a, failed, none, some ds.o.groups.length, t⟩)
       let o' := { ds.o with calls := ds.o.calls ++ news, groups := ds.o.groups ++ [List.range' base as.length] }
       -- the model may create fewer ports when a send fails; keep port numbering aligned
       let m' := Rpc.step ds.m (.mcall as t)
@@ -345,7 +358,37 @@ def step (ds : DS) (op impl : String) : DS × StepOut :=
             else (o', ["c09.forward-duplicated-or-unannounced"])
           | none => (o', [])
         | _ => (o', [])
-      finish (Rpc.step ds.m (.handle a act)) (modelHandlePre ds.m a act) o'' (ipre.startsWith "handled") fbad
+      finish (Rpc.step ds.m (.handle a act)) (modelHandlePre ds.o ds.m a act) o'' (ipre.startsWith "handled") (fbad ++ timeoutClause ds.o ipre)
+    | _, _ => (ds, { model := "bad-op" })
+  | ["later", p, "probe"] =>
+    -- `RpcReplyPort::is_closed` of a port somebody still holds: closed iff its caller has gone
+    -- (timed out, or its multi_call bailed out); nothing changes
+    match p.toNat? with
+    | some p =>
+      let pre := match ds.m.calls[p]? with
+        | some c =>
+          let reachable := match c.loc with
+            | .actor _ => true | .detached => true | .event a => supStashed ds.m.sups a | _ => false
+          if reachable then (if c.res.isSome then "closed" else "open") else "noport"
+        | none => "noport"
+      -- judged on the implementation's own history: a port reported closed although its caller is
+      -- still waiting (no completion event seen, deadline not passed), or open although it completed
+      let orc := match ds.o.calls[p]? with
+        | some c =>
+          if ipre == "closed" && !c.done && c.group.isNone then ["c09.port-closed-but-caller-waiting"]
+          else if ipre == "open" && c.done && c.group.isNone then ["c09.port-open-but-caller-gone"] else []
+        | none => []
+      finish ds.m pre ds.o (ipre != "noport") orc
+    | none => (ds, { model := "bad-op" })
+  | ["cast", a, v] =>
+    match a.toNat?, v.toNat? with
+    | some a, some v =>
+      let pre := if accepting ds.m a then "ok" else "sendErr"
+      -- a delivered cast is owed to the target exactly once (checked when it is handled); a
+      -- refused one must hand back the very message (`sendErr`), nothing else
+      let o' := if ipre == "ok" then { ds.o with expectFwd := (a, v) :: ds.o.expectFwd } else ds.o
+      let orc := if ipre == "ok" || ipre == "sendErr" then [] else ["c09.cast-error-not-own-message"]
+      finish (Rpc.step ds.m (.cast a v)) pre o' true orc
     | _, _ => (ds, { model := "bad-op" })
   | ["later", p, act] =>
     match p.toNat?, parseAct? act with
@@ -370,6 +413,7 @@ def step (ds : DS) (op impl : String) : DS × StepOut :=
   | ["badcast", _] => badOp
   | ["badsend", _] => badOp
   | ["badcall", _] => badOp
+  | ["baddcast", _] => badOp
   | ["exit", a] =>
     match a.toNat? with
     | some a =>
@@ -381,9 +425,9 @@ def step (ds : DS) (op impl : String) : DS × StepOut :=
   | ["stop", a, act] =>
     match a.toNat?, parseAct? act with
     | some a, some act =>
-      let pre := modelHandlePre ds.m a act
+      let pre := modelHandlePre ds.o ds.m a act
       let o' := gracefulHolds (applyHandled ds.o a ipre act) a
-      finish (Rpc.step ds.m (.stop a act)) pre o' true
+      finish (Rpc.step ds.m (.stop a act)) pre o' true (timeoutClause ds.o ipre)
     | _, _ => (ds, { model := "bad-op" })
   | ["drain", a] =>
     match a.toNat? with
@@ -403,6 +447,8 @@ def step (ds : DS) (op impl : String) : DS × StepOut :=
 def stripMacro (op : String) : String :=
   match words op with
   | ["call", a, t, "m"] => s!"call {a} {t}"
+  | ["call", a, t, "m0"] => s!"call {a} {t}"
+  | ["cast", a, v, _] => s!"cast {a} {v}"
   -- ` d`: the same call issued through a `DerivedActorRef` (`get_derived`, converter closure)
   | ["call", a, t, "d"] => s!"call {a} {t}"
   | ["fcall", a, f, t, "m"] => s!"fcall {a} {f} {t}"
